@@ -997,6 +997,10 @@ class AbsInt:
                 return FuncRef(fn)
             return Opaque(e.attr)
         if isinstance(base, ExtRef):
+            if base.name == 'errno' and e.attr.isupper():
+                import errno as _errno          # a table of integer constants of the platform, nothing else
+                if isinstance(getattr(_errno, e.attr, None), int):
+                    return getattr(_errno, e.attr)
             return ExtRef(f'{base.name}.{e.attr}')
         if hasattr(base, 'absint_getattr'):
             return base.absint_getattr(self, e.attr, e)
